@@ -1,6 +1,5 @@
 import Driver.ExecOps
 import Pymodbus.Model.Server
-import Pymodbus.Spec.RegisterFile
 open Lean Pymodbus Pymodbus.Server
 
 namespace Driver
@@ -29,26 +28,29 @@ def opServer (j : Json) : P Json := do
         let l ← arr st
         pure ((← nat (← nth l 0)), (← nats (← nth l 1))))
     | _ => do pure ((← (← fArr j "chunks").mapM nats).map (fun c => (0, c)))
-  let mut ctx : Units := ⟨single, units⟩
+  -- the process-wide control block as the harness found it (counters, listen-only, identity, ...)
+  let ctl : Control ← match optFld j "control" with
+    | some c => do
+        let ident : DevId.Ident ← (← fArr c "ident").mapM (fun kv => do
+          let l ← arr kv
+          pure ((← nat (← nth l 0)), (← nats (← nth l 1))))
+        pure ({ counters := ← fNats c "counters", listenOnly := ← fBool c "listen_only",
+                diagReg := (← fNats c "diagreg").map (· != 0), events := ← fNats c "events",
+                plus := ← fNats c "plus", ident := ident } : Control)
+    | none => pure { counters := List.replicate 9 0, diagReg := List.replicate 16 false, plus := List.replicate 54 0, ident := [] }
+  let mut ctx : World := ⟨⟨single, units⟩, ctl⟩
   let mut conns : Nat → Conn := fun _ => { buf := [] }
   let mut calls : List Json := []
   for (i, c) in sched do
     let (conn', ctx', outs, esc) := connStep cfg (conns i) ctx c
-    -- `opaque`: a request outside the modelled execute methods (diagnostics, identification, file records, ...) was
-    -- delivered in this call; the model answers those with SlaveFailure, the harness does not compare those bytes
-    let units := acceptedUnits cfg ctx
-    let evs := if cfg.framer = .tls then (Framer.tlsFeed decServer units ctx.single (conns i).buf c).1
-               else (Framer.feed (stepFor cfg.framer) decServer units ctx.single (conns i).buf c).1
-    let isOpaque := (conns i).running && evs.any (fun e => match e with
-      | .deliver r _ _ _ => !(decide (RegisterFile.InScope r))
-      | _ => false)
     let old := conns
     conns := fun k => if k = i then conn' else old k
     ctx := ctx'
     calls := Json.mkObj [("out", jArr (outs.map jNats)),
       ("escaped", match esc with | some e => Json.str e.name | none => Json.null),
-      ("running", Json.bool conn'.running), ("opaque", Json.bool isOpaque)] :: calls
+      ("running", Json.bool conn'.running)] :: calls
   pure (Json.mkObj [("calls", jArr calls.reverse),
-    ("dumps", jArr (ctx.slaves.map (fun kv => jArr [jInt kv.1, jSlaveDump kv.2])))])
+    ("dumps", jArr (ctx.units.slaves.map (fun kv => jArr [jInt kv.1, jSlaveDump kv.2]))),
+    ("control", Json.mkObj [("counters", jNats ctx.ctl.counters), ("listen_only", Json.bool ctx.ctl.listenOnly)])])
 
 end Driver
